@@ -18,6 +18,7 @@ import (
 const modPath = "github.com/256dpi/gomqtt"
 
 type World struct {
+	functypePkgPath map[*FuncContract]string
 	repo      string
 	fset      *token.FileSet
 	prog      *ssa.Program
@@ -147,6 +148,10 @@ func (w *World) addContractFile(cf *ContractFile) {
 				n = shortPkg(cf.PkgPath) + "." + n[1:]
 			}
 			w.functypes[n] = f
+			if w.functypePkgPath == nil {
+				w.functypePkgPath = map[*FuncContract]string{}
+			}
+			w.functypePkgPath[f] = cf.PkgPath
 			continue
 		}
 		switch f.Kind {
@@ -384,4 +389,29 @@ func (w *World) isConstGlobal(comp string) bool {
 		}
 	}
 	return false
+}
+
+// anonSig returns the signature with unnamed parameters and results (the
+// form in which function types are written at parameter declarations).
+func anonSig(sig *types.Signature) *types.Signature {
+	strip := func(t *types.Tuple) *types.Tuple {
+		var vs []*types.Var
+		for i := 0; i < t.Len(); i++ {
+			vs = append(vs, types.NewVar(token.NoPos, nil, "", t.At(i).Type()))
+		}
+		return types.NewTuple(vs...)
+	}
+	return types.NewSignatureType(nil, nil, nil, strip(sig.Params()), strip(sig.Results()), sig.Variadic())
+}
+
+// refinementTarget: the function-type contract a closure under contract has
+// to refine (callees invoke it knowing only that contract).
+func (w *World) refinementTarget(fn *ssa.Function) *FuncContract {
+	if fn.Parent() == nil {
+		return nil
+	}
+	if fc := w.functypeContract(fn.Signature); fc != nil {
+		return fc
+	}
+	return w.functypeContract(anonSig(fn.Signature))
 }
